@@ -294,6 +294,11 @@ def curated():
         S("ZN", [("p", "P1"), ("t", "T3"), ("f", "f64"), ("arr", "[u16; 3]"), ("ph", "PhantomData<u8>")], ZC),
         E("EZ", [V("A", "unit", []), V("B", "tuple", [("0", "u16")]), V("C", "named", [("x", "u8"), ("y", "u64")])], ZC),
         E("EU", [V("North", "unit", []), V("South", "unit", []), V("East", "unit", [])], ZC),
+        # zero-copy enums whose fields are all narrower than the C tag, and an over-aligned one
+        E("EZS", [V("A", "tuple", [("0", "u8")]), V("B", "tuple", [("0", "u8"), ("1", "u8")]), V("C", "unit", [])], ZC),
+        E("EZ16", [V("A", "unit", []), V("B", "tuple", [("0", "u8")]), V("C", "named", [("x", "u16"), ("y", "u32")])], ("repr(C)", "repr(align(16))", "zero_copy")),
+        # a deep-copy enum that is zero-sized in memory and still written with a tag
+        E("EO", [V("Only", "unit", [])]),
         E("ED", [V("Low", "unit", [], "1"), V("Mid", "unit", [], "2"), V("High", "unit", [], "4")]),
         E("EDZ", [V("Low", "unit", [], "1"), V("Mid", "unit", [], "2"), V("High", "unit", [], "4")], ZC),
         E("EDM", [V("A", "unit", [], "3"), V("B", "unit", []), V("C", "unit", [], "10"), V("D", "unit", [])], ZC),
@@ -318,6 +323,9 @@ def curated():
         S("GP", [("a", "A"), ("p", "PhantomData<Q>")], params=[P("A", "field"), P("Q", "phantom")]),
         S("GC", [("arr", "[u16; N]"), ("tail", "u8")], params=[P("N", "const")]),
         S("ZCN", [("arr", "[u32; N]"), ("t", "u8")], ZC, params=[P("N", "const")]),
+        # two const parameters (their values and names enter the type hash in a published order)
+        S("GC2", [("a", "[u8; N]"), ("b", "[u16; M]")], params=[P("N", "const"), P("M", "const")]),
+        S("ZC2", [("a", "[u8; N]"), ("b", "[u16; M]")], ZC, params=[P("N", "const"), P("M", "const")]),
         S("ZG", [("a", "A"), ("b", "u8")], ZC, params=[P("A", "field", bound="ZeroCopy")]),
         S("GD", [("a", "A"), ("n", "[u8; N]")], params=[P("A", "field", default="Vec<u8>"), P("N", "const", default="2")]),
         S("GN", [("inner", "G1<A>"), ("x", "u8")], params=[P("A", "internal")]),
